@@ -20,8 +20,10 @@ class Scope:
     """deserialize_from_value impls of the given crates, their closures and the local helper
     functions they call (transitively, bounded)."""
 
-    def __init__(self, crates, helper_crates=None):
+    def __init__(self, crates, helper_crates=None, inline=True):
         self.crates = crates
+        self.inline = inline
+        self.inlined_helpers = set()
         self.views = {}
         self.roots = []
         self.members = []  # (crate, body, role)
@@ -72,6 +74,36 @@ class Scope:
                 work.append((tc, tb, "helper", depth + 1))
                 for cl in closures_of(tc, tb):
                     work.append((tc, cl, "helper-closure", depth + 1))
+
+        if inline:
+            self._inline_helpers()
+
+    def _inline_helpers(self):
+        """Private helper functions of the library that carry part of the reporting protocol (a report site, a child
+        call, the re-wrapping of an answer) are expanded at their call sites (rules/inline.py); such a helper is then
+        judged through every one of its instances instead of standalone, where its parameters would be unknown."""
+        import inline as inl
+        per_crate = {}
+        for c in self.crates:
+            if c.name == "deserr":
+                per_crate[id(c)] = {b.path: b for b in c.bodies}
+        used_all = set()
+        for c, b, role in list(self.members):
+            if role in ("helper", "helper-closure") or c.name != "deserr":
+                continue
+            idx = per_crate.get(id(c))
+            if idx is None:
+                continue
+            nb, used = inl.inline_body(c, b, idx)
+            if nb is not None:
+                self.views[(c.name, c.file, b.path)] = View(nb)
+                used_all |= used
+                self.members = [(mc, nb if (mc is c and mb is b) else mb, mr) for mc, mb, mr in self.members]
+                self.roots = [(rc, nb if (rc is c and rb is b) else rb) for rc, rb in self.roots]
+        if used_all:
+            self.inlined_helpers = used_all
+            self.members = [(c, b, role) for c, b, role in self.members
+                            if not (role in ("helper", "helper-closure") and c.name == "deserr" and (b.path in used_all or b.root in used_all))]
 
     def view(self, crate, body):
         k = (crate.name, crate.file, body.path)
